@@ -603,7 +603,13 @@ impl Engine {
             Some(b) => b.clone(),
             None => return,
         };
-        let should = !self.m.halted && !pend.reqs.is_empty() && now >= pend.due;
+        // deadlines must fit the clock and be representable as a Timestamp (nanoseconds in a u64)
+        let fits = |p: u64| now.checked_add(p).map(|d| d <= u64::MAX / 1_000_000_000).unwrap_or(false);
+        let periods_fit = fits(self.m.cfg.batch_period) && fits(self.m.cfg.unbonding);
+        if !periods_fit {
+            self.stats.probe("submit_with_period_overflowing_clock");
+        }
+        let should = !self.m.halted && !pend.reqs.is_empty() && now >= pend.due && periods_fit;
         let artefact = self.m.l < pend.total || self.w.st.bank.balance(&self.s_addr(), &self.lst) < pend.total;
         if now == pend.due {
             self.stats.probe("submit_exactly_at_deadline");
@@ -620,7 +626,7 @@ impl Engine {
             }
             return;
         }
-        if !should {
+        if !should && periods_fit {
             if self.m.halted {
                 self.v("C10", "halted_refuses_submit", "SubmitBatch succeeded while halted".into());
             } else {
@@ -654,9 +660,9 @@ impl Engine {
         if let Some(mb) = self.m.batches.get_mut(&pid) {
             mb.status = 1;
             mb.expected = Some(observed);
-            mb.due = now + cfgc.unbonding;
+            mb.due = now.saturating_add(cfgc.unbonding);
         }
-        self.m.batches.insert(pid + 1, MBatch { id: pid + 1, total: 0, reqs: BTreeMap::new(), status: 0, due: now + cfgc.batch_period, expected: None, received: None, paid: 0 });
+        self.m.batches.insert(pid + 1, MBatch { id: pid + 1, total: 0, reqs: BTreeMap::new(), status: 0, due: now.saturating_add(cfgc.batch_period), expected: None, received: None, paid: 0 });
         self.m.pending = pid + 1;
         self.m.n = n - unbond.min(n);
         self.m.l = l - b.min(l);
@@ -996,6 +1002,13 @@ impl Engine {
                 self.v("C06", "receive_only_submitted_and_due", format!("batch {} (status {}) accepted delivery at now={} due={}", id, mb.status, now, mb.due));
             }
         }
+        // the amount recorded for the batch is what arrived: it is the base of every pro-rata payout
+        // (C05) and of what the contract owes (C02)
+        let recorded = self.q(json!({"batch": {"id": id}})).map(|v| u(&v["received_native_unstaked"]));
+        if accept && recorded != Some(amount) {
+            self.v("C05", "received_amount_recorded", format!("batch {} received {} but records {:?}", id, amount, recorded));
+            self.v("C02", "received_amount_recorded", format!("batch {} received {} but records {:?}", id, amount, recorded));
+        }
         if let Some(b) = self.m.batches.get_mut(&id) {
             b.status = 2;
             b.received = Some(amount);
@@ -1113,10 +1126,10 @@ impl Engine {
         let r = self.w.tx_sudo(&msg.to_string(), self.step_no % 2 == 0);
         let r = self.after_tx(r);
         if self.w.st.staking.map != pre {
-            self.v("C07", "stray_callback_changes_nothing", format!("callback {:?} changed contract storage", k));
+            self.vo("C07", "stray_callback_changes_nothing", format!("callback {:?} changed contract storage", k));
         }
         if !r.effects.iter().all(|e| matches!(e, Effect::Exec { .. })) && !r.effects.is_empty() {
-            self.v("C07", "stray_callback_changes_nothing", format!("callback {:?} emitted messages", k));
+            self.vo("C07", "stray_callback_changes_nothing", format!("callback {:?} emitted messages", k));
         }
     }
 
